@@ -141,3 +141,8 @@ func VerifC11_ZeroAfterRelRemoveEntity() {
 }
 func VerifC11_ZeroAfterBatchRemove() { vBatchRemove(0, false) }
 func VerifC11_ZeroAfterShrink()      { vRun(1, func() { vStepPlain(8, 2, 60) }) }
+
+// whole-table resets (batch removal of entities, batch exchange) over the pointer-bearing column
+func VerifC11_ZeroAfterRemoveEntitiesBatch() { vBatchRemoveEntities(0, false) }
+func VerifC11_ZeroAfterBatchExchange()       { vBatchExchange(0) }
+func VerifC11_ZeroAfterWorldReset()          { vResetScenario(0) }
